@@ -150,8 +150,11 @@ def run(tier, seed, replay=None):
                 else:
                     continue
                 break
+        elif not any(f.ok() for f in faces.values()):
+            # rejected whatever the version / options: not a matter of this property (acceptance is decided under C03)
+            stats["programs_rejected_by_libgraphite2_in_every_build (C03)"] += 1
         else:
-            problems.append("libgraphite2 rejects build(s): %s" % [k for k, f in faces.items() if not f.ok()])
+            problems.append("libgraphite2 rejects build(s): %s but accepts %s" % ([k for k, f in faces.items() if not f.ok()], [k for k, f in faces.items() if f.ok()][:3]))
         for f in faces.values():
             f.close()
         stats["programs"] += 1
@@ -165,7 +168,7 @@ def run(tier, seed, replay=None):
             samples.append({"case": name, "builds": {k: hex(silfs[k]["version"]) for k in silfs}})
         shutil.rmtree(d, ignore_errors=True)
     rep.coverage.update({
-        "programs": stats["programs"], "builds": stats["builds"], "rejected_builds": stats["rejected"],
+        "programs": stats["programs"], "programs_rejected_by_libgraphite2_in_every_build (C03)": stats["programs_rejected_by_libgraphite2_in_every_build (C03)"], "builds": stats["builds"], "rejected_builds": stats["rejected"],
         "versions_checked": stats["versions_checked"], "compressed_tables_checked": stats["compressed_tables_checked"],
         "texts_shaped_all_builds": stats["texts"],
         "traces_validated_against_impl": stats["builds"], "disagreements_checked": len(rep.violations),
